@@ -673,13 +673,21 @@ public:
             const CXXMethodDecl *Op = X->getCallOperator();
             json::Array fns;
             if (X->isGenericLambda()) {
+                bool any = false;
                 if (auto *FT = X->getDependentCallOperator()) {
                     for (auto *Spec : FT->specializations()) {
-                        if (Spec->hasBody() && !Spec->isDependentContext()) {
+                        if (Spec->hasBody() && !Spec->isDependentContext() && !Spec->isInvalidDecl()) {
                             fns.push_back(fnId(Spec));
                             lambdaQueue.push_back({ Spec, F.FD });
+                            any = true;
                         }
                     }
+                }
+                if (!any && Op && Op->hasBody()) {
+                    // never (successfully) instantiated: keep the dependent pattern so its shape is still visible
+                    fns.push_back(fnId(Op));
+                    lambdaQueue.push_back({ Op, F.FD });
+                    o["dependent"] = true;
                 }
             } else if (Op && Op->hasBody()) {
                 fns.push_back(fnId(Op));
@@ -972,6 +980,18 @@ public:
             o["decls"] = std::move(decls);
             return push(F, std::move(o), S);
         }
+        if (const auto *X = dyn_cast<CXXDependentScopeMemberExpr>(S)) {
+            o["k"] = "depmem";
+            o["name"] = X->getMember().getAsString();
+            if (!X->isImplicitAccess() && X->getBase())
+                o["base"] = emitNode(F, X->getBase());
+            return push(F, std::move(o), S);
+        }
+        if (const auto *X = dyn_cast<UnresolvedLookupExpr>(S)) {
+            o["k"] = "unresolved";
+            o["name"] = X->getName().getAsString();
+            return push(F, std::move(o), S);
+        }
         if (const auto *X = dyn_cast<RecoveryExpr>(S)) {
             F.degraded = true;
             o["k"] = "recovery";
@@ -1025,7 +1045,8 @@ public:
 
     void emitFunction(const FunctionDecl *FD, const FunctionDecl *Parent)
     {
-        if (!FD->hasBody() || FD->isDependentContext())
+        bool dependent = FD->isDependentContext();
+        if (!FD->hasBody() || (dependent && !(Parent && isLambdaOp(FD))))
             return;
         const FunctionDecl *Def = nullptr;
         FD->hasBody(Def);
@@ -1054,6 +1075,8 @@ public:
             fo["targs"] = ta;
         if (FD->isTemplateInstantiation())
             fo["tinst"] = true;
+        if (dependent)
+            fo["dependent"] = true;
         if (Parent) {
             fo["lambda"] = true;
             fo["parent"] = fnId(Parent);
